@@ -14,7 +14,7 @@ one() {
   fi
   for p in $(echo "$props" | tr ',' ' '); do
     mkdir -p "$d/ev"; cp $V/known_findings.json "$d/ev/"
-    out=$($V/bin/spdxverif check -property "$p" -repo "$d/repo" -verif "$d/ev" 2>&1); rc=$?
+    out=$(${SPDXVERIF_BIN:-$V/bin/spdxverif} check -property "$p" -repo "$d/repo" -verif "$d/ev" 2>&1); rc=$?
     nv=$(echo "$out" | grep -c '^VIOLATION')
     if [ "$kind" = pos ]; then
       if [ $rc -ne 0 ] && [ $nv -gt 0 ]; then echo "OK    $patch $p fired ($nv)"; else echo "MISS  $patch $p silent"; fi
